@@ -8,7 +8,9 @@ Sub-checks (all against the documented factors 12 months, 365.25/7 weeks, 365.25
  B2 conversion commutes with group summation: for individual-level flow nodes the automatic sum
     x_<u>_<g> equals the reference group sum of x_<u> and 12 * x_m_<g> == x_y_<g>;
  B3 metamorphic: supplying an input in another time unit (value converted with the reference
-    factor) reproduces every node.
+    factor) reproduces every node;
+ B4 the four unit variants of a computed flow column as sources of a user person-pointer sum
+    (aggregate_by_p_id_specs) are all available and differ by the same factors.
 """
 from __future__ import annotations
 
@@ -142,6 +144,39 @@ def check(df, date, chosen, sums, swap, stats=None):
             fails.append(core.Failure(f"factor:{names['m']}", f"{date}: {names['y']} != 12*{names['m']}"))
         if stats is not None and np.any(col(names["y"]) != 0):
             stats.append(f"B2|{n}_{g}")
+    # B4: every unit variant of a computed flow column can be the source of a person-pointer aggregate
+    # (user specification), and the four aggregates differ by the same factors
+    for (n, g) in list(sums)[:1]:
+        v, _ = variants(n)
+        if env.group_of(n) is not None or any(x in df.columns for x in v.values()):
+            continue
+        if not any(x in functions for x in v.values()):
+            # only policy rules: a person-pointer aggregate of a (converted) person-pointer aggregate is a
+            # chain the loader does not build and nothing documents
+            continue
+        specs = {f"vfagg{uu}x": {"p_id_to_aggregate_by": "p_id_kindergeld_empf", "source_col": v[uu], "aggr": "sum"} for uu in "ymwd"}
+        try:
+            r4 = env.simulate(df, date, targets=sorted(specs) + [v["y"]], aggregate_by_p_id_specs=specs)
+        except Exception as e:  # noqa: BLE001
+            fails.append(core.Failure(f"by-p-id-variants-unavailable:{type(e).__name__}",
+                                      f"{date}: person-pointer sums over the unit variants {sorted(v.values())} raise {type(e).__name__}: {e!s:.160}"))
+            continue
+        ptr = df["p_id_kindergeld_empf"].to_numpy()
+        pos = {int(p): i for i, p in enumerate(df["p_id"].tolist())}
+        src = r4[v["y"]].to_numpy().astype(float)
+        exp = np.zeros(len(df))
+        for i, t in enumerate(ptr.tolist()):
+            if t >= 0:
+                exp[pos[int(t)]] += src[i]
+        for uu in "ymwd":
+            got = r4[f"vfagg{uu}x"].to_numpy().astype(float) * PER_Y[uu]
+            ok = close(got, exp, 1e-9)
+            if not ok.all():
+                i = int(np.flatnonzero(~ok)[0])
+                fails.append(core.Failure(f"by-p-id-factor:{v[uu]}", f"{date}: the sum of {v[uu]} by p_id_kindergeld_empf times {PER_Y[uu]} is {got[i]}, "
+                                          f"the sum of {v['y']} is {exp[i]} (p_id={int(df['p_id'].iloc[i])})"))
+        if stats is not None and np.any(exp != 0):
+            stats.append(f"B4|{n}")
     # B3: inputs supplied in another unit
     for c, u2 in swap:
         v, u = variants(c)
